@@ -17,7 +17,8 @@ func init() {
 		"(R18a) no Close/Shutdown method of the module calls itself on its own receiver and each is idempotent by construction (sync.Once, closed flag under the mutex, or pure delegation to idempotent closes); "+
 		"(R18b) every value appended to the router's server closers is non-nil on that path and startServer returns a non-nil closer whenever it returns a nil error; "+
 		"(R18d) the router's close cancels the context and closes limiter, every upstream, the cache and every listener, run() registers components before the next fallible step and neither run nor its callees can panic/exit; "+
-		"(R18e) dial results that arrive after Close are closed and never published; (R18c) resources acquired in constructors are closed on later error paths. "+
+		"(R18e) dial results that arrive after Close are closed and never published; (R18c) resources acquired in constructors are closed on later error paths; "+
+		"(R18f) loading a configuration cannot panic on its content: every index, slice and library precondition in the functions reachable only from start-up (rule/domain/ip list loaders, upstream address parsing, listener set-up) is in bounds, proved by the same engine as C01/R01a (five sites that need a dependency contract or a cross-iteration length argument are listed as reviewed). "+
 		"Not decided: promptness, general deadlock freedom, sockets owned by dependencies' internals.",
 		Rule{ID: "R18a", Doc: "close delegation well-founded and idempotent", Floor: 14, AllVariants: true, Run: r18a},
 		Rule{ID: "R18b", Doc: "server closers are non-nil", Floor: 3, Run: r18b},
@@ -25,6 +26,7 @@ func init() {
 		Rule{ID: "R18d", Doc: "router close completeness; no panic/exit in run", Floor: 8, Run: r18d},
 		Rule{ID: "R18e", Doc: "late dial results are closed, not published", Floor: 4, Run: r18e},
 		Rule{ID: "R18g", Doc: "Close closes every registered connection", Floor: 2, Run: r18g},
+		Rule{ID: "R18f", Doc: "start-up does not panic on configuration content: bounds of every index/slice/precondition in the functions reachable only from configuration loading", Floor: 60, Run: r18f},
 	)
 }
 
